@@ -41,7 +41,9 @@ META = {
             "operation on single items / all-1 batches between identical batched probes), `huge` (2^17+37; thorough 2^18+1, 2^18+37, "
             "2^20+1; last n % 2^k items), `lowp` (float16 / bfloat16), `tiny` corpus (rotations 1e-5..1e-11, nearly equal operands, "
             "cotangents x 2^+-40) and `cotscale`, `defaults` (modjac / jacrev with options omitted on several modules), `callbacks` "
-            "(functions returning their argument / a view / the same output twice), `subprops`. A `local` stream runs every "
+            "(functions returning their argument / a view / the same output twice), `subprops`, `subsets` (every subset of operands "
+            "requiring grad), `layout` (24..64 items in 2-D / 3-D batch shapes with PERMUTED strides, one / a few / most items exactly "
+            "degenerate in one block: against the contiguous copy, the item alone and the model). A `local` stream runs every "
             "single Function (all groups, both arguments) on the full ladder. Log / Jinvp inputs are kept away from the "
             "rotation angle pi (> 0.3 rad); Jinvp additionally away from the zero rotation (theta >= 1e-3 — the quantifier's "
             "domain). non-trivial = at least one non-identity leaf; distinct by (program shape, groups, dtype, regime tags)",
@@ -1777,7 +1779,7 @@ def run(ctx: Ctx):
     from . import util_autograd_h2 as H2, util_autograd_h4 as H4, util_autograd_h5 as H5
     H4.run_fresh_modes(ctx)    # pass 4 (23): keys fresh in the process are used FIRST under inference_mode / no_grad, then with backward
     H2.run_all(ctx)            # pass 2: interleavings, argument combinations, error paths, grad modes, duck types, copies, memory, sizes
-    run_corpus(ctx, n_items=ctx.pick(10, 24), dtypes=("float64", "float32"), fd_every=ctx.pick(3, 1))
+    run_corpus(ctx, n_items=ctx.pick(10, 24), dtypes=("float64", "float32"), fd_every=ctx.pick(6, 1))
     # pass 4 (20): exact coincidences (quarter turns |v| == |w|, theta == 0.05 / eps, |sigma| == theta, Y == X, p == t, ...)
     run_corpus(ctx, n_items=12, dtypes=ctx.pick(("float64",), ("float64", "float32")), fd_every=ctx.pick(4, 1), rows_fn=H4.tie_values, stream="ties")
     # pass 5 (36): tiny-but-non-zero rotations, nearly equal operands, cotangents scaled by 2^+-40 (float64)
@@ -1792,6 +1794,7 @@ def run(ctx: Ctx):
     H5.run_callbacks(ctx)      # (31)
     H5.run_subprops(ctx)       # (33)
     H5.run_subsets(ctx)        # (37) every subset of operands requiring grad
+    H5.run_layout(ctx)         # (39), (41) permuted strides x degenerate minority x 20..64 items
     H5.run_huge(ctx)           # (34) > 2^17 items
     H4.run_subclasses(ctx)     # (21)
     H4.run_default_dtype(ctx)  # (25)
@@ -1800,8 +1803,8 @@ def run(ctx: Ctx):
     H4.run_large(ctx)          # (19), (28): 2^14+1 / 2^16+1 items, kernel switch-over sizes
     # seeded part
     run_local(ctx, ctx.pick(1, 8))
-    run_prog(ctx, ctx.pick(32, 1600))
-    run_routes(ctx, ctx.pick(12, 240))
+    run_prog(ctx, ctx.pick(24, 1600))
+    run_routes(ctx, ctx.pick(8, 240))
     from . import util_autograd_batch as HB
     HB.run_batch(ctx, ctx.pick(24, 400))   # pass 3: the model's own batched / broadcasting layer (c04.bcall) against the code
 
